@@ -13,7 +13,9 @@ import schedcommon as sc
 
 import json, os
 import seqextra
-THEOREMS = {"C05.v": json.load(open(os.path.join(os.path.dirname(__file__), "_theorems.json")))["C05"]}
+THEOREMS = {"C05.v": json.load(open(os.path.join(os.path.dirname(__file__), "_theorems.json")))["C05"],
+            # every reachable state of the whole-allocator machine M2 is a crash point (UpperCrash.v)
+            "C05u.v": ["C05u_crash_safe", "C05u_counts_agree_after_recovery"]}
 
 
 def jobs(ctx, rel):
